@@ -210,7 +210,7 @@ def items():
         Fn("src/formatters/assignment.rs", "format_local_assignment_no_trivia", mode="stub", contract="ensures lasg_sem(r) == lasg_sem(*assignment),"),
         Fn("src/formatters/assignment.rs", "format_assignment_no_trivia", mode="stub", contract="ensures asg_sem(r) == asg_sem(*assignment),"),
         Fn("src/formatters/functions.rs", "format_function_call", mode="stub", contract="ensures call_id(r) == call_id(*function_call),"),
-        Fn("src/formatters/lua52.rs", "format_goto_no_trivia", mode="stub", attrs='#[cfg(feature = "lua52")]\n', contract="ensures goto_sem(r) == goto_sem(*goto),"),
+        Fn("src/formatters/lua52.rs", "format_goto_no_trivia", mode="stub", attrs='#[cfg(any(feature = "lua52", feature = "luajit"))]\n', contract="ensures goto_sem(r) == goto_sem(*goto),"),
         Fn(STM, "format_stmt_no_trivia", contract="""
     requires
         decision(*ctx, NodeKey::Stmt(*stmt)) is Normal,   // callers (collapsed if-guards / function bodies) must only pass statements that are formatted normally
@@ -220,7 +220,7 @@ def items():
         Raw("""
 pub open spec fn simple_stmt_kind(s: Stmt) -> bool {
     match s { Stmt::LocalAssignment(_) => true, Stmt::Assignment(_) => true, Stmt::FunctionCall(_) => true,
-              #[cfg(feature = "lua52")] Stmt::Goto(_) => true, _ => false }
+              #[cfg(any(feature = "lua52", feature = "luajit"))] Stmt::Goto(_) => true, _ => false }
 }
 """, module="formatters::stmt"),
         Fn(BLK, "format_last_stmt_block", mode="stub", contract="ensures last_blocks_only(*last_stmt, r), last_sem(r) == last_sem(*last_stmt),"),
@@ -274,8 +274,8 @@ STMT_FORMATTERS = [
     ("src/formatters/luau.rs", "format_type_declaration_stmt", "td_sem", "type_declaration", '#[cfg(feature = "luau")]\n'),
     ("src/formatters/luau.rs", "format_exported_type_function", "etf_sem", "exported_type_function", '#[cfg(feature = "luau")]\n'),
     ("src/formatters/luau.rs", "format_type_function_stmt", "tf_sem", "type_function", '#[cfg(feature = "luau")]\n'),
-    ("src/formatters/lua52.rs", "format_goto", "goto_sem", "goto", '#[cfg(feature = "lua52")]\n'),
-    ("src/formatters/lua52.rs", "format_label", "label_sem", "label", '#[cfg(feature = "lua52")]\n'),
+    ("src/formatters/lua52.rs", "format_goto", "goto_sem", "goto", '#[cfg(any(feature = "lua52", feature = "luajit"))]\n'),
+    ("src/formatters/lua52.rs", "format_label", "label_sem", "label", '#[cfg(any(feature = "lua52", feature = "luajit"))]\n'),
 ]
 
 SEM_SPECS = r"""
@@ -337,4 +337,4 @@ VERIF_BLOCK = Raw("""
 pub fn peekable<I: Iterator>(it: I) -> (r: std::iter::Peekable<I>) ensures pk_rest(&r) == it_rest(&it) { it.peekable() }
 """, module="verif")
 
-UNIT = Unit("block", items() + [VERIF_MOD, VERIF_BLOCK], LABELS, macros=[(GEN, "fmt_symbol"), (STM, "fmt_stmt")], header=HEADER)
+UNIT = Unit("block", items() + [VERIF_MOD, VERIF_BLOCK], LABELS, macros=[(GEN, "fmt_symbol"), (STM, "fmt_stmt")], header=HEADER, feature_sets=("default", "all", "luajit"))
